@@ -19,7 +19,7 @@ from contracts.blocks_tasks import setup_engine, run_guarded, ENGINE_MODES
 from specs import metanet as M
 
 R = T.REF
-P_W = ("C01", "C04", "C07", "C11", "C12", "C13", "C19")
+P_W = ("C01", "C04", "C07", "C11", "C12", "C13", "C18", "C19")
 
 MODULE_OF = {
     "Link": "sym_metanet.blocks.links", "LinkWithVsl": "sym_metanet.blocks.links",
